@@ -8,7 +8,8 @@
    conversion of req.Offset and the uint64 subtraction `offset -= cumsize[start]` explicitly.
 
    check_case codes: 0 ok; 1 model <> implementation (oracle holds or says nothing);
-                     2 read returned other bytes than the requested range of the file content;
+                     2 read returned other bytes than the requested range of the file content, or (load
+                       errors, index right) something that is neither an error nor exactly the requested range;
                      3 size reported after Open is not the sum of the blob sizes. *)
 From Restic Require Import Base.Prelude.
 
@@ -273,9 +274,60 @@ Definition oracle_code (c : case) : nat :=
 
 Definition check_C46 (c : case) : bool := Nat.eqb (oracle_code c) 0.
 
+(* ---- load errors: a read is either an error or exactly the requested range ----
+   Repository whose index is right but where some blobs fail to load (None).  [range_opt] is the
+   requested range when no failing blob is needed for it, None when one is.  *)
+Fixpoint range_opt (sizes : list N) (blobs : list (option bytes)) (off : N) (n : nat) : option bytes :=
+  match n with
+  | O => Some []
+  | _ =>
+    match sizes, blobs with
+    | sz :: sr, b :: br =>
+        if sz <=? off then range_opt sr br (off - sz) n
+        else
+          match b with
+          | None => None
+          | Some x =>
+              let part := firstn n (skipn (N.to_nat off) x) in
+              match range_opt sr br 0 (n - length part) with
+              | Some d => Some (part ++ d)
+              | None => None
+              end
+          end
+    | _, _ => Some []
+    end
+  end.
+
+Fixpoint sizes_match (sizes : list N) (blobs : list (option bytes)) : bool :=
+  match sizes, blobs with
+  | [], [] => true
+  | sz :: sr, b :: br =>
+      andb (match b with Some x => N.of_nat (length x) =? sz | None => true end) (sizes_match sr br)
+  | _, _ => false
+  end.
+
+(* true = clause holds or does not apply *)
+Definition err_clause (c : case) : bool :=
+  match consistent (c_lookup c) (c_blobs c), all_some (c_lookup c) with
+  | None, Some sizes =>
+      if andb (sizes_match sizes (c_blobs c)) (0 <=? c_off c)%Z then
+        match c_obs c with
+        | OOpenErr => true
+        | ORead _ r =>
+            match range_opt sizes (c_blobs c) (Z.to_N (c_off c)) (c_size c) with
+            | Some d => orb (res_eqb r (ROk d)) (res_eqb r RErr)
+            | None => res_eqb r RErr
+            end
+        end
+      else true
+  | _, _ => true
+  end.
+
 Definition check_case (c : case) : nat :=
   match oracle_code c with
-  | O => if obs_eqb (c_obs c) (open_read (c_node_size c) (c_lookup c) (c_blobs c) (c_off c) (c_size c)) then 0%nat else 1%nat
+  | O =>
+      if negb (err_clause c) then 2%nat
+      else if obs_eqb (c_obs c) (open_read (c_node_size c) (c_lookup c) (c_blobs c) (c_off c) (c_size c)) then 0%nat else 1%nat
   | n => n
   end.
 
